@@ -515,6 +515,21 @@ def mutations(r, sp):
             else:
                 i2.witness = Witness(list(junk) + [i2.witness.items[-1]])
             yield "signature-free spend (%d non-empty item(s) and the script)" % len(junk), t2, True
+    if kind == "p2pkh":
+        # signature-free scriptSigs that try to NEUTRALISE the scriptPubKey appended after them: a conditional opened in
+        # the scriptSig and never closed (the remaining commands would become its body), in every shape of open levels
+        sec = ti.script_sig.commands[-1]
+        for label, cmds in (("OP_1 OP_0 OP_IF", [0x51, 0x00, 0x63]), ("OP_1 OP_1 OP_NOTIF", [0x51, 0x51, 0x64]),
+                            ("<01> OP_0 OP_IF", [b"\x01", 0x00, 0x63]), ("OP_1 OP_1 OP_IF OP_ELSE", [0x51, 0x51, 0x63, 0x67]),
+                            ("OP_1 OP_0 OP_NOTIF OP_ELSE", [0x51, 0x00, 0x64, 0x67]),
+                            ("OP_1 OP_0 OP_IF OP_IF OP_ENDIF", [0x51, 0x00, 0x63, 0x63, 0x68]),
+                            ("OP_1 OP_0 OP_IF OP_0 OP_IF", [0x51, 0x00, 0x63, 0x00, 0x63]),
+                            ("OP_0 OP_IF", [0x00, 0x63]), ("OP_1 OP_IF", [0x51, 0x63]), ("OP_1 OP_0 OP_IF OP_ELSE", [0x51, 0x00, 0x63, 0x67]),
+                            ("<sec> OP_1 OP_0 OP_IF", [sec, 0x51, 0x00, 0x63]), ("OP_1", [0x51]), ("OP_1 OP_ENDIF", [0x51, 0x68]),
+                            ("OP_1 OP_0 OP_IF OP_ENDIF OP_0 OP_IF", [0x51, 0x00, 0x63, 0x68, 0x00, 0x63])):
+            t2, i2 = clone(sp)
+            i2.script_sig = Script(list(cmds))
+            yield "signature-free scriptSig " + label, t2, True
     if kind == "p2sh":
         raw = ti.script_sig.commands[-1]
         for label, cmds in (("<redeem> OP_NOP", [raw, 0x61]), ("OP_1 <redeem> OP_NOP", [0x51, raw, 0x61]),
